@@ -78,6 +78,9 @@ pub struct Case {
     pub n_boot: usize,
     pub seeding: Seeding,
     pub script: Vec<Forced>,
+    /// number of bootstrap calls whose index draws are pooled for the uniformity clause
+    #[serde(default)]
+    pub repeat: usize,
 }
 
 pub fn fault_raw(kind: &str, r: &mut Sm) -> u64 {
@@ -152,6 +155,9 @@ impl Prop for C19 {
             Tier::Thorough => 12_500,
         }
     }
+    fn cpu_limit_s() -> u32 {
+        8
+    }
 
     fn gen(seed: u64, run: u64, _tier: Tier) -> Case {
         let mut r = Sm::new(mix3(seed, str_id("C19"), run));
@@ -167,6 +173,7 @@ impl Prop for C19 {
                 n_boot: 60 + r.below(141) as usize,
                 seeding: Seeding::gen(&mut r),
                 script: vec![],
+                repeat: 12,
             };
         }
         let func = *r.pick(&[
@@ -219,7 +226,9 @@ impl Prop for C19 {
                 script.truncate(alea::sim::SCRIPT_MAX);
             }
         }
-        Case { func, data: fbs(&data), mode: mode.into(), n_boot, seeding, script }
+        // pooled calls so that every position expects >= ~600 hits (fault-free, distinct data)
+        let repeat = if func == Func::Bootstrap && mode == "distinct" && script.is_empty() && r.chance(0.5) { ((600 + n_boot - 1) / n_boot).min(600) } else { 1 };
+        Case { func, data: fbs(&data), mode: mode.into(), n_boot, seeding, script, repeat }
     }
 
     fn exec(case: &Case, st: &mut Stats) -> Option<Viol> {
@@ -257,71 +266,91 @@ impl Prop for C19 {
 
         match case.func {
             Func::Bootstrap => {
-                let res = catch(|| bootstrap(&data, case.n_boot));
-                match res {
-                    Err(msg) => {
-                        let class = if is_budget_panic(&msg) { "nontermination" } else { "panic" };
-                        verdict = mk("bootstrap_structure", class, msg);
-                    }
-                    Ok(out) => {
-                        h.u(out.len() as u64);
-                        if out.len() != case.n_boot {
-                            verdict = mk("bootstrap_structure", "wrong_count",
-                                format!("asked {} resamples, got {}", case.n_boot, out.len()));
+                let distinct = case.mode == "distinct";
+                let mut counts = vec![0u64; n];
+                let pos_of: BTreeMap<u64, usize> = if distinct {
+                    data.iter().enumerate().map(|(i, x)| (x.to_bits(), i)).collect()
+                } else {
+                    BTreeMap::new()
+                };
+                let calls = if faulty { 1 } else { case.repeat.max(1) };
+                'calls: for _call in 0..calls {
+                    alea::sim::set_budget(100_000 + 8 * expected_draws);
+                    let res = catch(|| bootstrap(&data, case.n_boot));
+                    match res {
+                        Err(msg) => {
+                            let class = if is_budget_panic(&msg) { "nontermination" } else { "panic" };
+                            verdict = mk("bootstrap_structure", class, msg);
+                            break 'calls;
                         }
-                        let distinct = case.mode == "distinct";
-                        let mut counts = vec![0u64; n];
-                        let pos_of: BTreeMap<u64, usize> = if distinct {
-                            data.iter().enumerate().map(|(i, x)| (x.to_bits(), i)).collect()
-                        } else {
-                            BTreeMap::new()
-                        };
-                        'outer: for (bi, v) in out.iter().enumerate() {
-                            h.fs(v);
-                            if v.len() != n {
-                                verdict = mk("bootstrap_structure", "wrong_length",
-                                    format!("resample {} has length {} != {}", bi, v.len(), n));
-                                break;
+                        Ok(out) => {
+                            h.u(out.len() as u64);
+                            if out.len() != case.n_boot {
+                                verdict = mk("bootstrap_structure", "wrong_count",
+                                    format!("asked {} resamples, got {}", case.n_boot, out.len()));
+                                break 'calls;
                             }
-                            for (j, x) in v.iter().enumerate() {
-                                if !orig_bits.contains(&x.to_bits()) {
-                                    verdict = mk("bootstrap_structure", "invented_element",
-                                        format!("resample {} pos {} = {:e} (0x{:016x}) not in data", bi, j, x, x.to_bits()));
-                                    break 'outer;
+                            for (bi, v) in out.iter().enumerate() {
+                                h.fs(v);
+                                if v.len() != n {
+                                    verdict = mk("bootstrap_structure", "wrong_length",
+                                        format!("resample {} has length {} != {}", bi, v.len(), n));
+                                    break 'calls;
                                 }
-                                if distinct {
-                                    counts[pos_of[&x.to_bits()]] += 1;
-                                }
-                            }
-                        }
-                        // statistical clause: fault-free, distinct data only
-                        if verdict.is_none() && distinct && !faulty && n >= 2 {
-                            let total: u64 = counts.iter().sum();
-                            if total >= 2000 {
-                                st.inc("stat.dkw_checked");
-                                let eps = eps_dkw(total);
-                                let mut cum = 0u64;
-                                let mut worst = 0.0f64;
-                                let mut at = 0;
-                                for k in 0..n {
-                                    cum += counts[k];
-                                    let d = (cum as f64 / total as f64 - (k + 1) as f64 / n as f64).abs();
-                                    if d > worst {
-                                        worst = d;
-                                        at = k;
+                                for (j, x) in v.iter().enumerate() {
+                                    if !orig_bits.contains(&x.to_bits()) {
+                                        verdict = mk("bootstrap_structure", "invented_element",
+                                            format!("resample {} pos {} = {:e} (0x{:016x}) not in data", bi, j, x, x.to_bits()));
+                                        break 'calls;
+                                    }
+                                    if distinct {
+                                        counts[pos_of[&x.to_bits()]] += 1;
                                     }
                                 }
-                                if worst > eps {
-                                    verdict = mk("bootstrap_uniform", "dkw_exceeded",
-                                        format!("index ECDF off by {:.4} at position {} (band {:.4}, N={}, n={})", worst, at, eps, total, n));
-                                }
                             }
-                            if verdict.is_none() && (total as f64) >= n as f64 * ((n as f64).ln() + 28.0) {
-                                st.inc("stat.coverage_checked");
-                                if let Some(k) = counts.iter().position(|c| *c == 0) {
-                                    verdict = mk("bootstrap_uniform", "position_never_drawn",
-                                        format!("position {} of {} never drawn in {} draws", k, n, total));
-                                }
+                        }
+                    }
+                }
+                // statistical clause: fault-free, distinct data only, pooled over the calls
+                if verdict.is_none() && distinct && !faulty && n >= 2 {
+                    let total: u64 = counts.iter().sum();
+                    if total >= 2000 {
+                        st.inc("stat.dkw_checked");
+                        let eps = eps_dkw(total);
+                        let mut cum = 0u64;
+                        let mut worst = 0.0f64;
+                        let mut at = 0;
+                        for k in 0..n {
+                            cum += counts[k];
+                            let d = (cum as f64 / total as f64 - (k + 1) as f64 / n as f64).abs();
+                            if d > worst {
+                                worst = d;
+                                at = k;
+                            }
+                        }
+                        if worst > eps {
+                            verdict = mk("bootstrap_uniform", "dkw_exceeded",
+                                format!("index ECDF off by {:.4} at position {} (band {:.4}, N={}, n={})", worst, at, eps, total, n));
+                        }
+                    }
+                    if verdict.is_none() && (total as f64) >= n as f64 * ((n as f64).ln() + 28.0) {
+                        st.inc("stat.coverage_checked");
+                        if let Some(k) = counts.iter().position(|c| *c == 0) {
+                            verdict = mk("bootstrap_uniform", "position_never_drawn",
+                                format!("position {} of {} never drawn in {} draws", k, n, total));
+                        }
+                    }
+                    // per-position frequency: Bernstein bound with the 1e-12 budget split over positions
+                    if verdict.is_none() && total >= 50 * n as u64 {
+                        st.inc("stat.frequency_checked");
+                        let mu = total as f64 / n as f64;
+                        let l = (2.0 * n as f64 / 1e-12).ln();
+                        let t = (2.0 * mu * l).sqrt() + (2.0 / 3.0) * l;
+                        for k in 0..n {
+                            if (counts[k] as f64 - mu).abs() > t {
+                                verdict = mk("bootstrap_uniform", "position_frequency_off",
+                                    format!("position {} of {} drawn {} times in {} draws; expected {:.1} +- {:.1} (Bernstein, alpha 1e-12 over all positions)", k, n, counts[k], total, mu, t));
+                                break;
                             }
                         }
                     }
@@ -466,6 +495,13 @@ impl Prop for C19 {
                 out.push(c);
             }
         }
+        for rp in [1usize, case.repeat / 2] {
+            if rp >= 1 && rp < case.repeat {
+                let mut c = case.clone();
+                c.repeat = rp;
+                out.push(c);
+            }
+        }
         // simpler values
         if case.mode != "distinct" {
             let mut c = case.clone();
@@ -513,7 +549,7 @@ impl Prop for C19 {
             "len.len2-8", "len.len9+", "mode.distinct", "mode.repeated", "mode.special",
             "seeding.seed_clock", "seeding.seed_small", "seeding.seed_set", "fault.rng_zero",
             "fault.rng_max", "fault.rng_tiny", "fault.rng_half", "fault.rng_streak",
-            "stat.dkw_checked", "stat.coverage_checked",
+            "stat.dkw_checked", "stat.coverage_checked", "stat.frequency_checked",
         ]
         .iter()
         .map(|s| s.to_string())
